@@ -70,13 +70,13 @@ def gen_case(rng, max_cells=40, max_mag=8, max_events=120, zero_frac=None, rate_
     case = {
         "nx": nx, "ny": ny, "dh": str(rng.choice(["0.1", "0.5", "0.25", "1", "0.05"])),
         "ax": str(rng.choice(["-125.4", "10", "0", "165.7", "-0.5", "4.35", "-163.7"])), "ay": str(rng.choice(["31.5", "-47.9", "0", "-0.5", "40", "40.05", "8.45"])),
-        "mag0": str(rng.choice(["4.95", "5.0", "2.5", "5.95"])), "dmag": str(rng.choice(["0.1", "0.2", "0.5"])), "nmag": nmag,
+        "mag0": str(rng.choice(["4.95", "5.0", "2.5", "5.95", "4.975"])), "dmag": str(rng.choice(["0.1", "0.2", "0.5", "0.05"])), "nmag": nmag,
         "rates": rates.tolist(), "ev_cell": ev_cell.tolist(), "ev_mag": ev_mag.tolist(),
         "frac": rng.uniform(0.15, 0.85, (n_ev, 2)).tolist(), "magoff": magoff.tolist(),
     }
     # object histories / storage layouts that leave the mathematical input unchanged (drawn last: earlier draws keep their values)
     hk = float(rng.uniform())
-    case["history"] = None if hk < 0.7 else ("regridded" if hk < 0.85 else "inplace-reordered")
+    case["history"] = None if hk < 0.7 else ("regridded" if hk < 0.8 else ("inplace-reordered" if hk < 0.9 else "f4-magnitudes"))
     lk = float(rng.uniform())
     case["layout"] = None if lk < 0.8 else ("F" if lk < 0.9 else "T")
     return case
@@ -94,7 +94,10 @@ def build(case, name="fore"):
     frac = numpy.asarray(case["frac"], dtype=float).reshape(n, 2)
     lons, lats = fixtures.events_in_cells(reg, ec, None, frac=frac) if n else (numpy.zeros(0), numpy.zeros(0))
     dm = float(case["dmag"])
-    mvals = mags[em] + numpy.asarray(case["magoff"], dtype=float) * dm if n else numpy.zeros(0)
+    mo = numpy.asarray(case["magoff"], dtype=float)
+    if case.get("history") == "f4-magnitudes":
+        mo = numpy.where((mo > 0.99) & (mo < 1.0), 0.5, mo)      # in single precision "1e-8 below the next edge" IS the edge: keep those events mid-bin
+    mvals = mags[em] + mo * dm if n else numpy.zeros(0)
     order = case.get("event_order")
     if order is not None:
         order = numpy.asarray(order, dtype=int)
@@ -103,6 +106,13 @@ def build(case, name="fore"):
     w = numpy.zeros(rates.shape)
     numpy.add.at(w, (ec, em), 1)
     hist = case.get("history")
+    if hist == "f4-magnitudes" and n:
+        # the catalog's magnitude column is single precision (some readers deliver that): an on-edge magnitude is the float32 nearest to the edge,
+        # inside the float32 round-off tolerance of the binning, so it still belongs to the bin that edge opens
+        from csep.core.catalogs import CSEPCatalog
+        a = cat.catalog
+        dt = [(nm, (a.dtype[nm] if nm != "magnitude" else numpy.dtype("<f4"))) for nm in a.dtype.names]
+        cat = CSEPCatalog(data=a.astype(dt), region=reg, name="obs")
     if hist == "regridded" and reg.num_nodes > 1 and n:
         # the same catalog object was gridded on another region (same cells, listed in reverse) before being bound to the forecast's region
         from csep.core.regions import CartesianGrid2D
